@@ -306,8 +306,25 @@ pub fn eval(c: &Case11) -> CaseOutcome {
                                 code_m.push(it.clone());
                                 continue;
                             }
-                            defs.push(Item::MacroDef { name: name.clone(), params: vec!["q".into()], body_src: format!(" {} ", body_text) });
-                            code_m.push(Item::MacroUse { name, args: vec![render_unsigned(v as u32, &mut ch, &[])], expands_to: vec![i.clone()] });
+                            let arg = render_unsigned(v as u32, &mut ch, &[]);
+                            let (params, args): (Vec<String>, Vec<String>) = match ch.next() % 4 {
+                                // twelve parameters, the constant in a two-digit position
+                                1 => {
+                                    let at = 10 + (ch.next() as usize & 1);
+                                    let params: Vec<String> = (0..12).map(|k| if k == at { "q".to_string() } else { format!("p{}", k) }).collect();
+                                    let args: Vec<String> = (0..12).map(|k| if k == at { arg.clone() } else { format!("{}", 20 + k) }).collect();
+                                    (params, args)
+                                }
+                                // a second, unused parameter that differs from the mnemonic only in case (names are case sensitive)
+                                2 => {
+                                    let mut cap = i.mn.to_string();
+                                    cap[..1].make_ascii_uppercase();
+                                    (vec![cap, "q".to_string()], vec!["7".to_string(), arg.clone()])
+                                }
+                                _ => (vec!["q".to_string()], vec![arg.clone()]),
+                            };
+                            defs.push(Item::MacroDef { name: name.clone(), params, body_src: format!(" {} ", body_text) });
+                            code_m.push(Item::MacroUse { name, args, expands_to: vec![i.clone()] });
                             wrapped += 1;
                             continue;
                         }
